@@ -29,6 +29,12 @@ CHECKS = {
    text="The model's `sent` set (tables, own-input labels, OT-released labels) satisfies NoPair/NoRDiff/NoR for all circuits <= 2 gates; on the real code every byte the garbler writes is recorded, all labels are recomputed by re-garbling from the recorded randomness, every 16-byte window at every offset is classified (label of wire w / differs by R from another window / equals R) and the resulting event trace must satisfy the same invariants in TLC; the labels handed to OT.Send must be exactly the evaluator's input wires, once.",
    note="Trusts TLC, ideal OT, the recomputation of R (cross-checked against the transcript and the OT wire pairs); window collisions have probability ~2^-100.",
    ref="5 C04"),
+ "C16": dict(
+   technique="TLA+ fault action Corrupt on every message field of TwoParty.tla model-checked by TLC (NeverWrong); real whole-circuit (CO, COT) and streaming sessions behind a corrupting transport, every byte offset of both directions in the thorough tier, outcomes validated by TLC against CorruptTrace.tla",
+   level="model_checking",
+   text="TLC explores one or two corruptions of any field (key, counts, table rows, input labels, OT outcome, offset/count, returned output labels, result) over all small circuits and shows the garbler's BitFromLabel/range checks make a wrong value impossible; on the real code each (direction, byte offset, mask/burst) coordinate is one complete session in a child process under an address-space limit; the garbler's outcome class per field class is checked against the model and a returned value must be the correct one.",
+   note="Trusts TLC, the symbolic-label abstraction (a corrupted label never equals the sibling label), the stall detector of the harness transport.",
+   ref="5 C16"),
 }
 
 NOT_APPLICABLE = {}
